@@ -140,8 +140,31 @@ def parse_structs():
     return out
 
 
+def parse_aliases():
+    """`pub type X = T;` declarations under src/ -> {X: T} (so a struct written with <elf.h>-style typedef names translates)"""
+    out = {}
+    for f in sorted(os.listdir(os.path.join(REPO, "src"))):
+        if f.endswith(".rs"):
+            src = strip_comments(open(os.path.join(REPO, "src", f)).read())
+            for m in re.finditer(r"^\s*(?:pub(?:\([^)]*\))?\s+)?type\s+(\w+)\s*=\s*([^;]+?)\s*;", src, flags=re.M):
+                out[m.group(1)] = re.sub(r"\s+", "", m.group(2))
+    return out
+
+
+_ALIASES = None
+
+
 def field_type(ty, env):
     """-> ('U'|'I', width) or ('Arr', n)"""
+    global _ALIASES
+    if _ALIASES is None:
+        _ALIASES = parse_aliases()
+    for _ in range(8):                      # resolve (possibly path-qualified, possibly chained) type aliases
+        base = ty.split("::")[-1]
+        if ty not in ("u8", "u16", "u32", "u64", "i8", "i16", "i32", "i64") and base in _ALIASES:
+            ty = _ALIASES[base]
+        else:
+            break
     m = re.fullmatch(r"\[u8;(.+)\]", ty)
     if m:
         return ("Arr", rust_eval(m.group(1), env))
@@ -177,6 +200,8 @@ def gen_harness():
     ts = strip_comments(open(os.path.join(REPO, "src", "to_str.rs")).read())
     strfns = re.findall(r"pub\s+fn\s+(\w+)\s*\(\s*\w+\s*:\s*(\w+)\s*\)\s*->\s*Option<&'static\s+str>", ts)
     stringfns = re.findall(r"pub\s+fn\s+(\w+_to_string)\s*\(\s*\w+\s*:\s*(\w+)\s*\)\s*->\s*String", ts)
+    global _ALIASES
+    _ALIASES = None                         # re-read on every run
     structs = parse_structs()
     r = ["// GENERATED by tools/tablegen.py -- rustc's own view of the tables the translator parsed", "#![allow(clippy::all)]",
          "use std::fmt::Write;", "pub fn const_by_name(o: &mut dyn Write, n: &str) -> std::fmt::Result {", "    match n {"]
